@@ -9,7 +9,9 @@ import importlib
 mr = importlib.import_module("tools.mutrun") if False else None
 sel = sys.argv[1]
 ms = [json.loads(l) for l in open(os.path.join(V, "mutation", "mutants.jsonl"))]
-if ":" in sel:
+if any(str(m["id"]) == sel for m in ms):
+    c = [m for m in ms if str(m["id"]) == sel]
+elif ":" in sel:
     p = sel.split(":")
     c = [m for m in ms if m["file"].endswith(p[0]) and m["line"] == int(p[1]) and (len(p) < 3 or m["op"] == p[2])]
 else:
